@@ -64,7 +64,8 @@ func primitiveProcessor[T p.ZogPrimitive](ctx *p.SchemaCtx, tests []Test, postTr
 			for _, fn := range postTransforms {
 				err := fn(destPtr, ctx)
 				if err != nil {
-					ctx.AddIssue(ctx.IssueFromUnknownError(err))
+					// reported to the execution directly: a Catch value stands in for a missing, un-coercible or invalid value, not for the error of a transform
+					ctx.ExecCtx.AddIssue(ctx.IssueFromUnknownError(err))
 					return
 				}
 			}
@@ -130,7 +131,8 @@ func primitiveValidator[T p.ZogPrimitive](ctx *p.SchemaCtx, tests []Test, postTr
 			for _, fn := range postTransforms {
 				err := fn(valPtr, ctx)
 				if err != nil {
-					ctx.AddIssue(ctx.IssueFromUnknownError(err))
+					// reported to the execution directly: a Catch value stands in for a missing, un-coercible or invalid value, not for the error of a transform
+					ctx.ExecCtx.AddIssue(ctx.IssueFromUnknownError(err))
 					return
 				}
 			}
